@@ -417,7 +417,8 @@ register("C03", {
             "come back unchanged), plus transparent re-sends (double assignment "
             "on an HTTP/2-capable connection that turns out HTTP/1.1; GOAWAY below the stream id) "
             "and definitely-illegal heads (CR, LF, NUL, space in method / target / header name / "
-            "value); oracle = independent HTTP/1.1 parser and raw HTTP/2 frame ledger; all runs "
+            "value), plus 2-4 callers whose requests with and without bodies are multiplexed on "
+            "one HTTP/2 connection; oracle = independent HTTP/1.1 parser and raw HTTP/2 frame ledger; all runs "
             "non-trivial",
     "assumptions": ["legal = RFC token methods/names, visible-ASCII targets and values without "
                     "surrounding whitespace; the grey zone (obs-text, surrounding whitespace) is "
